@@ -182,6 +182,16 @@ func (propC01) Gen(seed uint64, tier string, idx int) any {
 		p.Img.Runs = r.Bool()
 	}
 	p.Opt = GenLosslessOpts(r, 25)
+	if r.Pct(2) {
+		// large pictures made of statistically different regions: many prefix-code
+		// groups, tile-map sub-sampling, table-slab limits
+		p.Img.Family = r.PickS("regions", "regions", "patch")
+		p.Img.W, p.Img.H = 16*r.Range(8, 32), 16*r.Range(8, 32)
+		p.Img.Type = "nrgba"
+		if p.Opt.Method > 4 {
+			p.Opt.Method = r.Range(0, 4)
+		}
+	}
 	p.WF = GenWriteFault(r, 6, 400)
 	p.RP = GenReadPlan(r, 4, 400)
 	if r.Pct(25) {
@@ -333,7 +343,7 @@ func (propC07) Gen(seed uint64, tier string, idx int) any {
 	}
 	p.Img = GenImgSpec(r, 1, 72, wantAlpha)
 	switch p.Img.Type {
-	case "gray", "ycbcr":
+	case "gray", "ycbcr", "graysub":
 		p.Img.Type = "nrgba"
 	}
 	p.Opt = GenLossyOpts(r, 15, false)
@@ -489,6 +499,13 @@ func (propC02) Gen(seed uint64, tier string, idx int) any {
 		p.Opt = GenLosslessOpts(r, 45)
 	} else {
 		p.Opt = GenLossyOpts(r, 45, true)
+	}
+	if r.Pct(2) {
+		p.Img.Family = r.PickS("regions", "patch", "noise")
+		p.Img.W, p.Img.H = 16*r.Range(8, 32)-r.Intn(3), 16*r.Range(8, 32)-r.Intn(3)
+		if p.Opt.Lossless && p.Opt.Method > 4 {
+			p.Opt.Method = r.Range(0, 4)
+		}
 	}
 	approx := 300
 	p.WF = GenWriteFault(r, 20, approx)
